@@ -33,7 +33,7 @@ package memory
 //@   requires lock-free-on-entry: !held(s.RWMutex)
 //@   lock s.RWMutex protects lkStore
 //@   requires map-made: s.data != nil
-//@   modifies heap(MD_string_memory_item)
+//@   modifies heap(MD_string_memory_item), heap(MV_string_memory_item)
 //@   atcall @sync.(*RWMutex).Lock: map-untouched-before-the-section: forallS(k, indom(s.data, k) <==> old(indom(s.data, k)))
 //@   atcall @sync.(*RWMutex).Unlock: written-inside-the-section: indom(s.data, key)
 //@   ensures key-stored: indom(s.data, key)
